@@ -21,6 +21,7 @@ class Session:
         self.output = Output(False, True, self.out_stream, self.err_stream)
         self.manager = ConnectionManager()
         self.controller = Controller(self.output, self.manager, matcher.parse(display).simplify(), matcher.parse(stop).simplify())
+        ntrace.REG['controller'] = self.controller
         self.ui = ntrace.UIRecorder()
         self.controller.ui_state_listener.add_listener(_as_listener(self.ui))
         self.conn_ids = []
@@ -114,3 +115,35 @@ def controller_with_history(rnd):
         c.current_connection = s.connection(rnd.choice(s.conn_ids))
     c._session = s
     return c
+
+
+def recording_sink():
+    """a ConnectionIDSink that records the calls it receives the way the assumed sink contract describes them"""
+    from interfaces import ConnectionIDSink
+    from pyvc import ntrace
+    class RecSink(ConnectionIDSink):
+        def open_connection(self, time, connection_id, is_server):
+            ntrace.EXT.append((10 if is_server is None else (11 if is_server else 12), connection_id))
+            return None
+        def close_connection(self, time, connection_id):
+            ntrace.EXT.append((2, connection_id))
+        def message(self, connection_id, message):
+            ntrace.EXT.append((3, connection_id))
+    return RecSink()
+
+
+def parser_with_history(rnd):
+    from backends.libwayland_debug_output.parse import Parser
+    from core.output import Output, stream
+    from core import wl
+    out = Output(False, rnd.random() < 0.7, stream.String(), stream.String())
+    p = Parser(out, recording_sink())
+    for cid in rnd.sample(['A', 'B', 'c', 'PARSED', 'x1'], rnd.randint(0, 4)):
+        p.known_connections.add(cid)
+    return p
+
+
+def simple_message(rnd):
+    from core import wl
+    return wl.Message(rnd.choice([0.0, 1.5, 9.0]), wl.UnresolvedObject(rnd.randint(1, 5), rnd.choice([None, 'wl_display'])), rnd.random() < 0.5,
+                      rnd.choice(['get_registry', 'get_registry', 'sync', 'commit']), ())
